@@ -29,6 +29,13 @@ def proj_route_c02(i, m):
     return [i[0], i[1], i[2], len(i[3])], [m[0], m[1], m[2], len(m[3])]
 
 
+def proj_reg(i, m):
+    # the answers of the history-built and of the fresh container (status, handler, Location); the fourth field of a
+    # preflight's answer (the announced methods) is compared between the two containers by the specification predicate
+    strip = lambda l: [a[:3] for a in l]
+    return [i[0], strip(i[1]), strip(i[2])] + i[3:], m
+
+
 def proj_twin(i, m):
     # the answers under the two routers; a third field of the implementation's (concurrent clients answered as a lone
     # one) is judged by the specification predicate
@@ -373,7 +380,7 @@ PROPS.update({
     'C11': dict(
         domains=[dict(name='reg', quick=12000, thorough=300000)],
         verdicts=['c11_*'],
-        project={'reg': proj_allow},
+        project={'reg': proj_reg},
         prop_files=['props/C11.v'],
         trivial_classes=(),
         rule='histories of 1-40 operations (Add / Remove of 2-5 services whose roots are drawn from a pool sharing fixed prefixes, '
